@@ -138,6 +138,7 @@ var modules = []Module{
 		Exprs: []ExprSpec{
 			{Pkg: "network/p2p", Recv: "Peer", Func: "readConn", Kind: "ifcond", LHS: "MaxPackageLength", Nth: 0, Lean: "frameTooLongCond"},
 			{Pkg: "network/p2p", Func: "readHandshakeBuf", Kind: "ifcond", LHS: "MaxPackageLength", Nth: 0, Lean: "hsFrameBadLenCond"},
+			{Pkg: "network/p2p", Recv: "Msg", Func: "CheckCode", Kind: "ifcond", LHS: "msg.Code", Nth: 0, Lean: "badCodeCond"},
 		},
 		Consts: []ConstSpec{
 			{Pkg: "chain/params", Name: "MaxPackageLength", Lean: "MaxPackageLength"},
@@ -155,6 +156,18 @@ var modules = []Module{
 			{Pkg: "common/rlp", Func: "puthead", Kind: "ifcond", LHS: "size <", Nth: 0, Lean: "putheadShortCond"},
 			{Pkg: "common/rlp", Recv: "encbuf", Func: "encodeStringHeader", Kind: "ifcond", LHS: "size <", Nth: 0, Lean: "stringHeaderShortCond"},
 			{Pkg: "common/rlp", Recv: "encbuf", Func: "listEnd", Kind: "ifcond", LHS: "size <", Nth: 0, Lean: "listEndShortCond"},
+		},
+	},
+	{
+		// tx pool capacity bookkeeping (C18): growth test of AddTx, reset / shrink tests of gc
+		File: "Pool.lean", NS: "LemoGen.Pool",
+		Exprs: []ExprSpec{
+			{Pkg: "chain/txpool", Recv: "TxPool", Func: "addTx", Kind: "ifcond", LHS: "pool.cap-txCount", Nth: 0, Lean: "growCond"},
+			{Pkg: "chain/txpool", Recv: "TxPool", Func: "gc", Kind: "ifcond", LHS: "len(pool.hashIndexMap)", Nth: 0, Lean: "gcEmptyCond"},
+			{Pkg: "chain/txpool", Recv: "TxPool", Func: "gc", Kind: "ifcond", LHS: "pool.cap >", Nth: 0, Lean: "gcShrinkCond"},
+		},
+		Consts: []ConstSpec{
+			{Pkg: "chain/txpool", Name: "defaultPoolCap", Lean: "defaultPoolCap"},
 		},
 	},
 	{
